@@ -69,6 +69,16 @@ namespace nmtools::meta
                     using result_t = append_type_t<init_t,ct<at(reversed,index+1)>>;
                     return as_value_v<result_t>;
                 }, as_value_v<init_type>);
+            } else if constexpr (is_clipped_index_array_v<indices_t>) {
+                // the per-axis maxima have to be reversed together with the values
+                constexpr auto indices = to_value_v<indices_t>;
+                constexpr auto reversed = index::reverse(indices);
+                using init_type = nmtools_tuple<clipped_size_t<at(reversed,0)>>;
+                return template_reduce<::nmtools::len(reversed)-1>([&](auto init, auto index){
+                    using init_t = type_t<decltype(init)>;
+                    using result_t = append_type_t<init_t,clipped_size_t<at(reversed,index+1)>>;
+                    return as_value_v<result_t>;
+                }, as_value_v<init_type>);
             } else if constexpr (is_index_array_v<indices_t>) {
                 // may be array or tuple of (runtime) index
                 // some fn allow tuple of runtime index
